@@ -15,6 +15,7 @@ joins the two on exactly the domain where the defect is absent.
 Only property theorems and non-vacuity examples live here.
 -/
 import FDAProofs.Lemmas.Eigen
+import FDAModel.Generated.SelectNpc
 import Mathlib.Algebra.BigOperators.Group.Finset.Basic
 import Mathlib.Algebra.BigOperators.Ring.Finset
 import Mathlib.Algebra.Order.BigOperators.Ring.Finset
@@ -335,6 +336,87 @@ theorem counterexample_leading :
   have := h witness 1 _ h1 1 (by simp [values]) 3 (by simp [values, witness])
   simp [clip] at this
   norm_num at this
+
+/-! ### The selector as written in the source (translator) -/
+
+/-- The parametrised selector at `<`, `+ 1`, `percentage < 1` is the model's `selectNpc`. -/
+theorem selectNpc_eq_param (vals : List ℚ) (sel : Sel) :
+    selectNpcParam true 1 true 1 vals sel = selectNpc vals sel := by
+  cases sel <;> simp [selectNpcParam, selectNpc]
+
+/-- What `harness/c01.py:translate()` extracted with `ast` from `_select_number_eigencomponents`
+(strictness of the comparison, the added constant, the guard of the float branch —
+`Generated/SelectNpc.lean`, regenerated on every run) **is** the model's `selectNpc`: `fraction_minimal`
+and every other theorem about `selectNpc` is thereby re-checked against the source text. An edit of
+`<` into `<=`, of the `+ 1` or of the bound breaks this proof. -/
+theorem source_selectNpc : FDA.Generated.selectNpcSrc = selectNpc := by
+  funext vals sel
+  unfold FDA.Generated.selectNpcSrc FDA.Generated.fracStrict FDA.Generated.fracOffset
+    FDA.Generated.floatBoundStrict FDA.Generated.floatBound
+  exact selectNpc_eq_param vals sel
+
+/-! ### Gram route: the noise shift `G − σ²I` -/
+
+open Finset in
+/-- Eigenpairs of `G − σ²I` are those of `G` with the value shifted by `σ²`, same vector. -/
+theorem gram_shift_eigen (n : ℕ) (G : ℕ → ℕ → ℚ) (v : ℕ → ℚ) (l σ2 : ℚ) :
+    (∀ i ∈ range n, ∑ j ∈ range n, G i j * v j = l * v i) ↔
+    (∀ i ∈ range n, ∑ j ∈ range n, (G i j - if i = j then σ2 else 0) * v j = (l - σ2) * v i) := by
+  have key : ∀ i ∈ range n, ∑ j ∈ range n, (G i j - if i = j then σ2 else 0) * v j
+      = ∑ j ∈ range n, G i j * v j - σ2 * v i := by
+    intro i hi
+    simp_rw [sub_mul, Finset.sum_sub_distrib, ite_mul, zero_mul]
+    rw [Finset.sum_ite_eq, if_pos hi]
+  constructor
+  · intro h i hi; rw [key i hi, h i hi]; ring
+  · intro h i hi
+    have := h i hi
+    rw [key i hi] at this
+    linarith
+
+/-- The shift preserves the order of the spectrum … -/
+theorem gram_shift_order (σ2 : ℚ) (raw : List Pair)
+    (h : (values raw).Pairwise (fun a b => b ≤ a)) :
+    (values (shiftPairs σ2 raw)).Pairwise (fun a b => b ≤ a) := by
+  unfold values shiftPairs at *
+  rw [List.map_map, List.pairwise_map]
+  rw [List.pairwise_map] at h
+  exact h.imp (fun hab => by simpa using hab)
+
+/-- … and commutes with the (stable, descending) sort of the pairs. -/
+theorem gram_shift_sort (σ2 : ℚ) (raw : List Pair) :
+    sortDesc (shiftPairs σ2 raw) = shiftPairs σ2 (sortDesc raw) := by
+  unfold sortDesc shiftPairs
+  symm
+  apply List.map_mergeSort
+  intro a _ b _
+  simp
+
+/-- Hence, for the specification, asking for `k` components selects **the same `k` solver vectors**
+whatever noise variance was subtracted: the integer rule commutes with the shift (the reported values
+are the shifted ones, clipped at 0). -/
+theorem gram_shift_selection_int (σ2 : ℚ) (raw : List Pair) (k : ℕ) :
+    ∃ out out', computeEigenSpec raw (.int k) = .ok out ∧
+      computeEigenSpec (shiftPairs σ2 raw) (.int k) = .ok out' ∧ vectors out' = vectors out := by
+  refine ⟨(clipPairs (sortDesc raw)).take k, (clipPairs (sortDesc (shiftPairs σ2 raw))).take k, ?_, ?_, ?_⟩
+  · unfold computeEigenSpec; rw [computeEigenImpl_def]; simp only [selectNpc]; rw [pyTake_nonneg]
+  · unfold computeEigenSpec; rw [computeEigenImpl_def]; simp only [selectNpc]; rw [pyTake_nonneg]
+  · rw [gram_shift_sort]
+    have hv : ∀ l : List Pair, vectors (l.take k) = (vectors l).take k := fun l => by
+      unfold vectors; rw [List.map_take]
+    rw [hv, hv, vectors_clipPairs, vectors_clipPairs]
+    congr 1
+    unfold vectors shiftPairs
+    rw [List.map_map]
+    rfl
+
+/-- The fraction rule is **not** invariant under the shift: spectrum `(4, 3)`, `p = 3/5` keeps two
+components (`4/7 < 3/5`), after subtracting `σ² = 2` — spectrum `(2, 1)` — only one (`2/3 ≥ 3/5`).
+What holds exactly is `gram_shift_selection_int` (same leading vectors for a given count) and
+`gram_shift_order`; the *count* chosen by a fraction refers to the shifted, clipped spectrum. -/
+theorem gram_shift_fraction_not_invariant :
+    selectNpc [4, 3] (.frac (3 / 5)) = .ok 2 ∧ selectNpc [4 - 2, 3 - 2] (.frac (3 / 5)) = .ok 1 := by
+  constructor <;> (simp [selectNpc, cumsum, cumsumFrom]; norm_num)
 
 /-! ### Rejected selectors, contract lemmas -/
 
